@@ -91,8 +91,10 @@ pub fn c03(tier: Tier) -> Result<Report, String> {
         bound: if thorough { 3 } else { 2 },
         bound_for: Some(Box::new(move |_sc, cfg| if thorough { 3 } else if cfg.quantum >= 3 { 2 } else { 1 })),
         explicit: Box::new(move |_sc, cfg| {
-            if thorough && cfg.quantum >= 5 && cfg.workers <= 2 {
-                Some(300_000)
+            if thorough {
+                Some(250_000)
+            } else if cfg.quantum >= 1000 && cfg.workers <= 2 {
+                Some(3_000)
             } else {
                 None
             }
@@ -207,8 +209,10 @@ pub fn c04(tier: Tier) -> Result<Report, String> {
         bound: if thorough { 3 } else { 2 },
         bound_for: Some(Box::new(move |_sc, cfg| if thorough { 3 } else if cfg.quantum >= 3 { 2 } else { 1 })),
         explicit: Box::new(move |_sc, cfg| {
-            if thorough && cfg.quantum >= 5 && cfg.workers <= 2 {
-                Some(300_000)
+            if thorough {
+                Some(250_000)
+            } else if cfg.quantum >= 1000 && cfg.workers <= 2 {
+                Some(3_000)
             } else {
                 None
             }
@@ -270,8 +274,10 @@ pub fn c06(tier: Tier) -> Result<Report, String> {
         bound: if thorough { 3 } else { 2 },
         bound_for: None,
         explicit: Box::new(move |_sc, cfg| {
-            if thorough && cfg.quantum >= 3 && cfg.workers <= 2 {
-                Some(300_000)
+            if thorough {
+                Some(250_000)
+            } else if cfg.quantum >= 1000 && cfg.workers <= 2 {
+                Some(3_000)
             } else {
                 None
             }
@@ -460,8 +466,10 @@ pub fn c05(tier: Tier) -> Result<Report, String> {
         bound: 2,
         bound_for: Some(Box::new(move |_sc, cfg| if cfg.quantum >= 1000 { 2 } else if thorough { 2 } else { 1 })),
         explicit: Box::new(move |_sc, cfg| {
-            if thorough && cfg.quantum >= 1000 && cfg.workers == 2 {
-                Some(200_000)
+            if thorough {
+                Some(250_000)
+            } else if cfg.quantum >= 1000 && cfg.workers <= 2 {
+                Some(3_000)
             } else {
                 None
             }
@@ -559,8 +567,10 @@ pub fn c15(tier: Tier) -> Result<Report, String> {
         bound: if thorough { 3 } else { 2 },
         bound_for: Some(Box::new(move |_sc, cfg| if thorough { 3 } else { 2 })),
         explicit: Box::new(move |_sc, cfg| {
-            if thorough && cfg.quantum >= 5 && cfg.workers <= 2 {
-                Some(300_000)
+            if thorough {
+                Some(250_000)
+            } else if cfg.quantum >= 1000 && cfg.workers <= 2 {
+                Some(3_000)
             } else {
                 None
             }
@@ -633,8 +643,10 @@ pub fn c14(tier: Tier) -> Result<Report, String> {
         bound: if thorough { 3 } else { 2 },
         bound_for: Some(Box::new(move |_sc, cfg| if thorough { if cfg.quantum >= 1000 { 4 } else { 3 } } else { 2 })),
         explicit: Box::new(move |_sc, cfg| {
-            if thorough && cfg.quantum >= 1000 && cfg.workers <= 2 {
-                Some(300_000)
+            if thorough {
+                Some(250_000)
+            } else if cfg.quantum >= 1000 && cfg.workers <= 2 {
+                Some(3_000)
             } else {
                 None
             }
